@@ -104,6 +104,8 @@ def same_final(fa, fb):
         return None, "unreadable"
     if fa[0] != fb[0] or fa[1] != fb[1]:
         return False, f"live/dims {fa[0]}{fa[1]} vs {fb[0]}{fb[1]}"
+    if not (np.all(np.isfinite(fa[2])) and np.all(np.isfinite(fb[2]))):
+        return None, "non-finite state (left behind by another defect)"
     e = ref.maxdiff(fa[2], fb[2])
     return e <= 1e-9, f"maxabs={e:.3g}"
 
